@@ -17,7 +17,7 @@ Chain(x, o, n) == IF o = 0 THEN <<>>
 Buckets(x) == DOMAIN x.head
 ChainOf(x, b) == Chain(x, x.head[b], Len(x.rec) + 1)
 Linked(x) == UNION {{ChainOf(x, b)[i] : i \in 1..Len(ChainOf(x, b))} : b \in Buckets(x)}
-BucketOfName == [n1 |-> "b1", n2 |-> "b1", n3 |-> "b2"]
+BucketOfName == [n1 |-> "b1", n2 |-> "b1", n3 |-> "b2", n4 |-> "b1", n6 |-> "b3", n7 |-> "b3"]
 ValueOf(x, n) == LET ss == {s \in Linked(x) : s >= 1 /\ x.rec[s].name = n} IN IF ss = {} THEN 0 ELSE x.rec[CHOOSE s \in ss : TRUE].val
 
 (* the file is a well-formed counter file: the independent decoder accepts it, *)
